@@ -9,7 +9,7 @@ import json, os, random, shutil, tempfile
 import common, streamlib as sl, atlasreplay as ar
 
 PID = "C17"
-KINDS = ("none", "status", "reset", "cut", "notgzip", "longline", "gzcut", "outdir", "outfull")
+KINDS = ("none", "status", "reset", "cut", "notmp", "notgzip", "longline", "gzcut", "outdir", "outfull")
 
 
 def run(tier):
